@@ -35,8 +35,8 @@ func vh20Look(t testing.TB, p vh20Pair) uint64 {
 }
 
 func vh20Pairs(r *rand.Rand, n int) []vh20Pair {
-	majors := []uint32{0, 1, 8, 0x7ff, 0xffe, 0xfff, 0x1000, 0x1001, 0xfffff, 0x100000, 0xffffffff}
-	minors := []uint32{0, 1, 0xff, 0x100, 0xffe, 0xfff, 0x1000, 0x1001, 0xfffff, 0x100000, 0xffffffff}
+	majors := []uint32{0, 1, 2, 8, 0x400, 0x7ff, 0x800, 0xffe, 0xfff, 0x1000, 0x1001, 0xfffff, 0x100000, 0xffffffff}
+	minors := []uint32{0, 1, 2, 0xff, 0x100, 0x400, 0x7ff, 0x800, 0xffe, 0xfff, 0x1000, 0x1001, 0xfffff, 0x100000, 0xffffffff}
 	inos := []uint64{0, 1, 2, 1<<39 - 1, 1 << 39, 1<<39 + 1, 1 << 40, 1<<63 - 1, 1 << 63, 1<<64 - 1, 12345678}
 	var devs []uint64
 	for _, ma := range majors {
@@ -47,6 +47,9 @@ func vh20Pairs(r *rand.Rand, n int) []vh20Pair {
 	devs = append(devs, 1<<32, 1<<32|0x801, 1<<44, 1<<63, 1<<64-1, 0xffffffff, 0xfffff, 0x100000, 0xffffff, 0x1000000)
 	var out []vh20Pair
 	for i, d := range devs {
+		if i < len(majors)*len(minors) {
+			out = append(out, vh20Pair{d, 1}) // every major x minor combination with one inode: collisions show in the history
+		}
 		out = append(out, vh20Pair{d, inos[i%len(inos)]}, vh20Pair{d, inos[(i*7+3)%len(inos)]})
 	}
 	for _, i := range inos {
@@ -78,7 +81,7 @@ func TestVerifC20Local(t *testing.T) {
 	out := vhfsOpen(t)
 	defer out.Close()
 	r := vhfsRand()
-	n := 360
+	n := 520
 	if vhfsThorough() {
 		n = 5000
 	}
